@@ -62,8 +62,31 @@ func splitCSVLine(line string) ([]string, error) {
 	return r.Read()
 }
 
-// ParseCSV parses benchstat's `-format csv` stdout and stderr.
+// ParseCSV parses benchstat's `-format csv` stdout and stderr. Warnings on
+// stderr refer to cells by a column-letter/line-number reference; the letters
+// are read as plain base 26 (A=0, the present convention: column 26 is "BA")
+// and, if that does not land every warning on a cell, as spreadsheet letters
+// (bijective base 26: column 26 is "AA") - the convention is not part of any
+// property (a benign change switched it; false alarm corrected, DESIGN.md 9.5).
 func ParseCSV(stdout, stderr string) (*Parsed, error) {
+	// A multi-letter reference that starts with 'A' can only be a spreadsheet
+	// letter (plain base 26 never has a leading zero digit).
+	spreadsheetFirst := false
+	for _, l := range strings.Split(stderr, "\n") {
+		if m := warnRe.FindStringSubmatch(l); m != nil && len(m[1]) > 1 && m[1][0] == 'A' {
+			spreadsheetFirst = true
+		}
+	}
+	p, err := parseCSV(stdout, stderr, spreadsheetFirst)
+	if err != nil {
+		if p2, err2 := parseCSV(stdout, stderr, !spreadsheetFirst); err2 == nil {
+			return p2, nil
+		}
+	}
+	return p, err
+}
+
+func parseCSV(stdout, stderr string, spreadsheet bool) (*Parsed, error) {
 	p := &Parsed{}
 	type wref struct {
 		col int
@@ -81,7 +104,14 @@ func ParseCSV(stdout, stderr string) (*Parsed, error) {
 		}
 		col := 0
 		for _, ch := range m[1] {
-			col = col*26 + int(ch-'A')
+			if spreadsheet {
+				col = col*26 + int(ch-'A') + 1
+			} else {
+				col = col*26 + int(ch-'A')
+			}
+		}
+		if spreadsheet {
+			col--
 		}
 		var line int
 		fmt.Sscanf(m[2], "%d", &line)
